@@ -2245,6 +2245,13 @@ class Interp:
                     et1, vz1 = "json", to_json(val)
                 except OutOfSubset:
                     return None
+            elif isinstance(val, VTuple) and getattr(val, "ntname", None) and val.ntname in _values.NT_DEFS:
+                # a namedtuple built from pure expressions of x
+                try:
+                    et1 = f"nt[{val.ntname}]"
+                    vz1 = to_z3(val, parse_type(et1))
+                except OutOfSubset:
+                    return None
             else:
                 return None
             if et is not None and et1 != et:
